@@ -2,6 +2,7 @@ package checks
 
 import (
 	"fmt"
+	"regexp"
 	"sort"
 	"time"
 
@@ -263,6 +264,27 @@ func init() {
 				s := mon.SnapOf(rs)
 				how := fmt.Sprintf("%s re-dated to %s of %s, offset %+d min", base.Name, cs.label, info.Name, cs.off)
 				c03JudgeAll(c, o, s, how)
+				// the same object through a registry filtered from the global one: the window is a property of the
+				// lint as registered, whichever registry runs it
+				var fo lint.FilterOptions
+				var fl string
+				switch i % 3 {
+				case 0:
+					fo, fl = lint.FilterOptions{IncludeNames: []string{info.Name}}, "to that lint alone"
+				case 1:
+					fo, fl = lint.FilterOptions{IncludeSources: lint.SourceList{info.Meta.Source}}, "to its source"
+				default:
+					fo, fl = lint.FilterOptions{NameFilter: regexp.MustCompile("^" + regexp.QuoteMeta(info.Name[:len(info.Name)/2]))}, "by a name pattern"
+				}
+				if fr, err := g.Filter(fo); err == nil {
+					if o2 := o.Reparse(); o2 != nil {
+						if rs2, pv2, _ := o2.Lint(fr); pv2 == nil && rs2 != nil {
+							c.R.Count("evaluations", 1)
+							c.R.Count("filtered_registry_boundary_runs", 1)
+							c03JudgeAll(c, o2, mon.SnapOf(rs2), how+", through a registry filtered "+fl)
+						}
+					}
+				}
 				if cs.label == "extreme" {
 					c.R.Count("extreme_date_runs", 1)
 					return
